@@ -3,6 +3,7 @@ package message
 import (
 	"bytes"
 	"io"
+	"strings"
 
 	"github.com/ipfs/go-cid"
 	cbg "github.com/whyrusleeping/cbor-gen"
@@ -56,6 +57,37 @@ func VerifC10_RoundTrip() {
 	verif_Reach("decoded")
 	verif_Assert(derr == nil, "the encoding of a message decodes")
 	verif_Assert(c10equiv(m, &d), "the decoded message equals the original")
+}
+
+// C10 at the field caps the two sides share (cbor-gen: 8192 elements or text
+// bytes): a message whose original-peer text or address list is exactly at
+// the cap encodes, decodes and compares equal; one past the cap is refused by
+// the encoder (never emitted and then refused by the decoder only).
+func VerifC10_FieldCaps() {
+	m := &Message{Cid: c10cid(1)}
+	over := verif_Choose("relativeToCap", 0, 2) - 1 // -1, 0, +1
+	switch verif_Choose("field", 0, 1) {
+	case 0:
+		m.OrigPeer = strings.Repeat("p", cbg.MaxLength+over)
+	case 1:
+		m.Addrs = make([][]byte, cbg.MaxLength+over)
+		m.OrigPeer = []string{"", "orig"}[verif_Choose("withOrigPeer", 0, 1)]
+	}
+	var buf bytes.Buffer
+	err := m.MarshalCBOR(&buf)
+	verif_Reach("encoded")
+	if over <= 0 {
+		verif_Assert(err == nil, "a message within the size caps encodes")
+	} else {
+		verif_Assert(err != nil, "a field past its cap is refused by the encoder")
+	}
+	if err != nil {
+		return
+	}
+	var d Message
+	derr := d.UnmarshalCBOR(bytes.NewReader(buf.Bytes()))
+	verif_Assert(derr == nil, "the encoding of a message decodes")
+	verif_Assert(derr != nil || (d.OrigPeer == m.OrigPeer && len(d.Addrs) == len(m.Addrs) && d.Cid == m.Cid), "the decoded message equals the original")
 }
 
 // c10slowReader returns at most one byte per Read call.
